@@ -1,6 +1,8 @@
 (* C03 model driver.  Case (one line):
      role=<leech|leechdone|seed|iseed|meta> np=<n> bits=<01..|-> pre=<0|1> cu=<0|1> xv=<01..|-> ho=<hex|-> stream=<hex|-> segs=<seg>/<seg>/...
-       seg ::= k<cap>:<len>,<len>,...      (cap 0 = unlimited; the lens partition `stream`)
+       seg ::= k<cap>:<len>,<len>,...      (cap 0 = unlimited; the lens partition `stream`; an entry `w` =
+                                            the library's write side becomes ready and writes all it has)
+     xr=<01..> (optional): k-th completed extension message generates a reply (ut_metadata request)
      eof=1 (optional): the peer closes its end after the last segment (remote close: digest closed=1)
      ho = bytes handed over from the handshake (push_unread + one event_read on an empty socket)
    Output: one digest per segmentation joined by " / ", then " || " + the effect sequence of the
@@ -49,7 +51,8 @@ let () = each_line (fun line ->
   let bits0 = if role = Meta then [true] else if g "bits" = "-" then List.init np (fun _ -> false) else bits_of (g "bits") in
   let pre = g "pre" = "1" in
   let c = { c_role = role; c_npieces = n_of_int np; c_done = isdone; c_can_unchoke = (g "cu" = "1");
-            c_ext_verdicts = bits_of (g "xv") } in
+            c_ext_verdicts = bits_of (g "xv");
+            c_ext_reply = bits_of (try Hashtbl.find kv "xr" with Not_found -> "-") } in
   let h0 = hinit c bits0 pre pre false in
   let eof = (try Hashtbl.find kv "eof" with Not_found -> "0") = "1" in
   let ho = bytes_of_hex (g "ho") in
@@ -58,9 +61,22 @@ let () = each_line (fun line ->
     let i = String.index seg ':' in
     let capv = int_of_string (String.sub seg 1 (i - 1)) in
     let lens = List.filter (fun x -> x <> "") (String.split_on_char ',' (String.sub seg (i + 1) (String.length seg - i - 1))) in
-    let rec cut l ls = match ls with [] -> [] | n :: r -> let (a, b) = split_at (int_of_string n) l in a :: cut b r in
-    let segs = cut stream lens in
+    let usesb = List.mem "w" lens || (try Hashtbl.find kv "xr" with Not_found -> "-") <> "-" in
     let budget = if capv = 0 then (fun _ -> nat_of_int 100000) else (let b = nat_of_int (capv - 1) in fun _ -> b) in
+    if usesb && role <> Meta then begin
+      (* the machine with the extension wait/resume pause; "w" = the write side becomes ready *)
+      let rec cutb l ls = match ls with
+        | [] -> []
+        | "w" :: r -> BWrite :: cutb l r
+        | n :: r -> let (a, b) = split_at (int_of_string n) l in BSeg a :: cutb b r in
+      match run_b_real c budget (fun _ -> false) h0 ho (cutb stream lens) with
+      | BRet (s, _, _, _, _) ->
+          let s = if eof then fst (close_eof s) else s in
+          show_digest s.m_h s.m_mode s.m_buf
+      | BFault -> "FAULT" | BOut -> "OUTOFFUEL"
+    end else
+    let rec cut l ls = match ls with [] -> [] | n :: r -> let (a, b) = split_at (int_of_string n) l in a :: cut b r in
+    let segs = cut stream (List.filter (fun x -> x <> "w") lens) in
     match run_real c budget (fun _ -> false) h0 ho segs with
     | MRet (s, _, _) ->
         let s = if eof then fst (close_eof s) else s in
